@@ -99,9 +99,15 @@ fn bad_block(h: &mut Hist, parent: &Hash, class: &'static str) -> Option<(Block,
 		}
 	};
 	let prev_td = h.ledger.header(parent).total_difficulty();
-	let remine = |b: &mut Block, h: &Hist| {
+	// after a header mutation: re-mine (real PoW), or give the header a fresh pseudo-proof
+	// (the block hash covers the proof only, so without this the mutant would share the
+	// hash of the unmutated block)
+	let mut p2 = h.prng.fork(22);
+	let mut remine = |b: &mut Block, h: &Hist| {
 		if h.real_pow {
 			let _ = vcommon::world::mine(&mut b.header, prev_td);
+		} else {
+			vcommon::world::skip_pow_proof(&mut b.header, &mut p2);
 		}
 	};
 	let ts = 40;
